@@ -633,10 +633,28 @@ class SnpRule(object):
             if "w" not in T[p["t"]] or T[p["t"]]["s"] != "int":
                 continue
             P = S = A = None
+            # locals that merely cache a formal:  ssize_t size = *sizep;
+            alias = {}
+            for n in f.walk():
+                if n["k"] == "Var" and n.get("c") and n["c"][0] is not None:
+                    fm = self.formal(n["c"][0], names)
+                    if fm is not None:
+                        alias[n["n"]] = fm
             for n in f.walk():
                 a = assigned(n)
-                if not a or a[2] is None or lv(a[2]) != p["n"]:
+                if not a or a[2] is None:
                     continue
+                op = a[1]
+                if lv(a[2]) != p["n"]:
+                    # *S = <S or its cached copy> - res   /   *P = *P + res
+                    r = strip(a[2])
+                    if not (op == "=" and r["k"] == "Binary" and r["op"] in ("+", "-") and lv(r["c"][1]) == p["n"]):
+                        continue
+                    lform = self.formal(r["c"][0], names) or alias.get(lv(r["c"][0]))
+                    if lform is None or lform != self.formal(a[0], names):
+                        continue
+                    op = r["op"] + "="
+                a = (a[0], op, a[2])
                 tgt = a[0]
                 form = self.formal(tgt, names)
                 if form is None:
